@@ -799,3 +799,129 @@ harness!(model_std_wrapping_contracts, {
         if (a > 0) == (b > 0) { assert!(q >= 0); } else { assert!(q <= 0); }
     }
 });
+
+// =============================================================== C13: assign::exec / try_exec on a REAL cell
+// (needs cbmc --max-field-sensitivity-array-size >= 80, set in the scratch copy's Cargo.toml by lib/kscratch.sh: ArcInner<Mut>
+//  is larger than 64 bytes; with the default the cell is one array symbol, the RwLock state / Arc count / enum tags are not
+//  constant-propagated and symex never leaves RwLock::write_contended)
+fn mk_cell(a: i64) -> Arc<crate::variable::Mut> {
+    Arc::new(crate::variable::Mut {
+        var_type: Type::Int,
+        variable: std::sync::RwLock::new(Variable::Int(a)),
+    })
+}
+/// observe the content of a cell through a kept clone (the guard is forgotten: no unlock code).
+/// Use only AFTER the call under test: the cell stays read-locked.
+fn read_cell(cell: &Arc<crate::variable::Mut>) -> Obs {
+    let g = cell.variable.read().unwrap();
+    let o = obs_var(&*g);
+    std::mem::forget(g);
+    o
+}
+harness!(c13_assign_exec_add_cell, {
+    let (a, b): (i64, i64) = (kani::any(), kani::any());
+    let cell = mk_cell(a);
+    let keep = cell.clone();
+    let o = obs(assign::exec(Variable::Mut(cell), Variable::Int(b), add::exec));
+    assert!(o.tag == 0 && o.i == a.wrapping_add(b)); // yields content op v
+    let s = read_cell(&keep);
+    assert!(s == o); // stored == yielded, seen through an alias of the cell
+    std::mem::forget(keep);
+});
+harness!(c13_assign_exec_plain_assignment_cell, {
+    // `c = v`: BinOperation::exec passes the closure `|_, b| b`
+    let (a, b): (i64, i64) = (kani::any(), kani::any());
+    let cell = mk_cell(a);
+    let keep = cell.clone();
+    let o = obs(assign::exec(Variable::Mut(cell), Variable::Int(b), |old: Variable, new: Variable| {
+        std::mem::forget(old);
+        new
+    }));
+    assert!(o.tag == 0 && o.i == b); // yields v
+    let s = read_cell(&keep);
+    assert!(s == o); // stores v
+    std::mem::forget(keep);
+});
+harness!(c13_assign_try_exec_divide_cell, {
+    let (a, b): (i64, i64) = (kani::any(), kani::any());
+    let cell = mk_cell(a);
+    let keep = cell.clone();
+    let o = obs_res(assign::try_exec(Variable::Mut(cell), Variable::Int(b), divide::exec));
+    let s = read_cell(&keep);
+    if b == 0 {
+        assert!(o.tag == E_ZDIV); // the operator's error ...
+        assert!(s.tag == 0 && s.i == a); // ... and the cell is left alone
+    } else {
+        assert!(o.tag == 0);
+        assert!(s == o); // stored == yielded, all a, all b != 0
+        if b == 1 { assert!(o.i == a); }
+        if b == -1 { assert!(o.i == a.wrapping_neg()); }
+        if a == 0 { assert!(o.i == 0); }
+    }
+    std::mem::forget(keep);
+});
+harness!(c13_assign_try_exec_shift_cell, {
+    let (a, b): (i64, i64) = (kani::any(), kani::any());
+    let cell = mk_cell(a);
+    let keep = cell.clone();
+    let o = obs_res(assign::try_exec(Variable::Mut(cell), Variable::Int(b), lshift::exec));
+    let s = read_cell(&keep);
+    if 0 <= b && b <= 63 {
+        assert!(o.tag == 0 && o.i == a << (b as u32));
+        assert!(s == o);
+    } else {
+        assert!(o.tag == E_SHIFT);
+        assert!(s.tag == 0 && s.i == a); // a failing update leaves the cell alone
+    }
+    std::mem::forget(keep);
+});
+harness!(c13_assign_try_exec_divide_small_divisors_cell, {
+    let (a, b): (i64, i64) = (kani::any(), kani::any());
+    kani::assume(b == 1 || b == 2 || b == -1);
+    let cell = mk_cell(a);
+    let keep = cell.clone();
+    let o = obs_res(assign::try_exec(Variable::Mut(cell), Variable::Int(b), divide::exec));
+    let s = read_cell(&keep);
+    assert!(o.tag == 0 && o.i == a.wrapping_div(b));
+    assert!(s == o);
+    std::mem::forget(keep);
+});
+harness!(c13_indirection_reads_cell, {
+    let a: i64 = kani::any();
+    let cell = mk_cell(a);
+    let keep = cell.clone();
+    let o = obs(crate::instruction::prefix_op::indirection::exec(Variable::Mut(cell)));
+    assert!(o.tag == 0 && o.i == a);
+    std::mem::forget(keep);
+});
+
+// ---- std contract behind Interpreter::exec / recreate_instructions (assumed by back end V): `iter().map(f).collect::<Result<_, _>>()`
+// calls f on the elements left to right, each at most once, and stops at the first Err (bounded: length 3, every Ok/Err pattern)
+#[kani::proof]
+#[kani::unwind(5)]
+fn model_iter_map_collect_left_to_right_stops_at_first_err() {
+    let fails: [bool; 3] = [kani::any(), kani::any(), kani::any()];
+    let items: [u8; 3] = [0, 1, 2];
+    let mut log: [u8; 4] = [9, 9, 9, 9];
+    let mut n: usize = 0;
+    let r: Result<Arc<[u8]>, u8> = items
+        .iter()
+        .map(|i| {
+            log[n] = *i;
+            n += 1;
+            if fails[*i as usize] { Err(*i) } else { Ok(*i + 10) }
+        })
+        .collect();
+    let first_fail = if fails[0] { 0 } else if fails[1] { 1 } else if fails[2] { 2 } else { 3 };
+    // visited exactly the prefix up to and including the first failing element, in order
+    assert!(n == if first_fail == 3 { 3 } else { first_fail + 1 });
+    assert!(log[0] == 0 && (n < 2 || log[1] == 1) && (n < 3 || log[2] == 2));
+    match &r {
+        Ok(v) => {
+            assert!(first_fail == 3);
+            assert!(v.len() == 3 && v[0] == 10 && v[1] == 11 && v[2] == 12);
+        }
+        Err(e) => assert!(first_fail < 3 && *e as usize == first_fail),
+    }
+    std::mem::forget(r);
+}
